@@ -112,8 +112,10 @@ func genDisturber(t *rapid.T, c *Case, kind string) RPC {
 	case "invalid_method":
 		d.Method = encStr([]byte("/verif.Svc/Un\xffary"))
 	case "invalid_header":
+		d.HReturnMDErr = rapid.Bool().Draw(t, "d.return_refusal") // many handlers simply return the error they were given
 		d.HOps = append([]MDOp{{Kind: rapid.SampledFrom([]string{"sethdr", "sendhdr"}).Draw(t, "d.hdrop"), MD: map[string][]string{"h-bin": {"hex:fffe"}}}}, d.HOps...)
 	case "invalid_trailer":
+		d.HReturnMDErr = rapid.Bool().Draw(t, "d.return_refusal")
 		d.HOps = append(d.HOps, MDOp{Kind: "settrl", MD: map[string][]string{"t-bin": {"hex:c328"}}})
 	}
 	return d
